@@ -92,7 +92,28 @@ def compare(rep, exe, invocations, label="grouping"):
         rep.count(label + ":" + str(impl_v).split(":")[0])
         # hypotheses of C05_flat_order_free_exec evaluated on this input (last two entries of every `parse` answer)
         try:
-            flat = (v[0], v[-2] == "1", v[-1] == "1")
+            if v[0] == "ok":
+                # ok-answer: [..., acyclicB, traceCovers, noNesting, flatWF, per-family e2e flags, flatInputOK]
+                nn_, fw_ = v[4] == "1", v[5] == "1"
+                for fl in v[6]:
+                    g_ok, h_ok, m_ok, t_ok = (x == "1" for x in fl)
+                    if nn_ and g_ok:
+                        rep.count("theorem-instances-checked:C02_end_to_end_flat_memberOK")
+                        if not m_ok:
+                            rep.broken.append("instance of C02_end_to_end_flat_memberOK false in the executable model: " + inv[:400])
+                        if h_ok:
+                            rep.count("theorem-instances-checked:C02_end_to_end_flat_hypotheses")
+                            if not t_ok:
+                                rep.broken.append("instance of C02_end_to_end_flat_hypotheses false in the executable model: " + inv[:400])
+                    else:
+                        rep.count("theorem-not-applicable:C02_end_to_end_flat (nested or flatGroupOK fails)")
+                if nn_ and v[7] == "1":
+                    rep.count("theorem-instances-checked:C02_end_to_end_flat_memberOK_input")
+                    if not all(fl[2] == "1" for fl in v[6]):
+                        rep.broken.append("instance of C02_end_to_end_flat_memberOK_input false in the executable model: " + inv[:400])
+                flat = (v[0], nn_, fw_)
+            else:
+                flat = (v[0], v[-2] == "1", v[-1] == "1")
             if not hasattr(rep, "flat_info"):
                 rep.flat_info = {}
             rep.flat_info[inv] = flat
